@@ -206,5 +206,11 @@ contract(
     # never raises from such a state and installs complete weights: those the
     # checkpoint was written against, or the newer complete ones
     ensures=["self.flow.ghost_loaded == PREV() or "
-             "self.flow.ghost_loaded == NEW()"],
+             "self.flow.ghost_loaded == NEW()",
+             # ... and hands the NEXT weights save a state that meets its
+             # precondition: no torn file is left under the name the save
+             # will move to <weights>.old (it would replace the only valid
+             # copy, and a second kill in the middle of that save would
+             # leave no loadable weights at all)
+             f"not fs_torn({SW}) and not fs_torn({SWO})"],
 )
